@@ -141,13 +141,20 @@ def run_roundorder(ctx, pt):
     if not (isinstance(ref, list) and len(ref) == 16):
         raise InternalError('in-order tables could not be generated: %r' % (ref,))
     third = list(range(16)) if tier == 'thorough' else [0, 1, 2, 3, 7, 15]
+
+    def norm(v):
+        return tuple(tuple(int(x) for x in row) for row in v)
+    refS = pristine(lambda: [norm(importlib.import_module('crysp.wb').table_rKS(r, Bits(key, 64))) for r in range(16)])
     for r2 in range(16):
         for r3 in [None] + (third if (tier == 'thorough' or (r1 in third and r2 in third)) else []):
-            W = importlib.reload(wb)
-            bK = Bits(key, 64)
-            seq = [r for r in (r1, r2, r3) if r is not None]
-            got = [ctx.attempt(lambda: W.table_rKT(r, bK)[1]) for r in seq]
-            ctx.eq('C18/round-tables-depend-on-the-order-of-generation', got, [('ok', ref[r]) for r in seq])
+            for kinds in (('T', 'T', 'T'), ('S', 'T', 'T'), ('T', 'S', 'T'), ('S', 'S', 'T')) if r3 is None or tier == 'thorough' else (('T', 'T', 'T'), ('T', 'S', 'T')):
+                W = importlib.reload(wb)
+                bK = Bits(key, 64)
+                seq = [(kd, r) for kd, r in zip(kinds, (r1, r2, r3)) if r is not None]
+                if r3 is None:
+                    seq = [(kinds[0], r1), (kinds[1], r2)] + ([('T', r2)] if kinds[1] == 'S' else [])
+                got = [ctx.attempt(lambda: W.table_rKT(r, bK)[1]) if kd == 'T' else (lambda v: (v[0], norm(v[1])) if v[0] == 'ok' else v)(ctx.attempt(W.table_rKS, r, bK)) for kd, r in seq]
+                ctx.eq('C18/round-tables-depend-on-the-order-of-generation', got, [('ok', ref[r] if kd == 'T' else refS[r]) for kd, r in seq])
     # and whole networks built in unusual orders, run against DES
     if r1 == 0:
         orders = [list(reversed(range(16))), list(range(0, 16, 2)) + list(range(1, 16, 2)), list(range(1, 16, 2)) + list(range(0, 16, 2)),
@@ -161,6 +168,25 @@ def run_roundorder(ctx, pt):
             net = W.WhiteDES(KT, W.table_M1(), W.table_M2()[0], W.table_M3())
             for b in (expander(8, 8), bytes(8)):
                 ctx.eq('C18/whitebox-enc-vs-FIPS46-3/tables-generated-out-of-order', ctx.attempt(net.enc, b), ('ok', RDES.des_enc(key, b)))
+
+
+def pts_samestate(tier):
+    return [(ki, si) for ki in range(2) for si in range(4)]
+
+
+def run_samestate(ctx, pt):
+    """one WhiteDES object encrypts 16 blocks chosen (with the reference DES) so that the SAME internal (L,R) state is reached
+    after round 1, 2, .. 16: what the network does with a state must not depend on having seen it at another round"""
+    from crysp import wb
+    ki, si = pt
+    key = ORDER_KEYS[ki]
+    L, R = ((0x01234567, 0x89abcdef), (0, 0), (0xffffffff, 0), (0x80000000, 1))[si]
+    KT, M1, M2, M3 = build(ctx, key)
+    W = wb.WhiteDES(KT, M1, M2, M3)
+    order = list(range(1, 17)) if si % 2 == 0 else [9, 3, 16, 1, 12, 5, 8, 2, 15, 4, 11, 6, 14, 7, 13, 10]
+    for rnd in order + order[:3]:
+        b = RDES.des_block_reaching(key, rnd, L, R)
+        ctx.eq('C18/whitebox-enc-vs-FIPS46-3/same-internal-state-at-several-rounds', ctx.attempt(W.enc, b), ('ok', RDES.des_enc(key, b)))
 
 
 def pts_inplace(tier):
@@ -203,8 +229,10 @@ def subchecks():
     return [Sub('internal-states', pts_states, run_states, engine='P', exhaustive=False, chunk=1,
                 bound='2 keys x every round 1..16 x 10 internal (L,R) states (zero, all-ones, one zero half, single bits): the block reaching that state is computed with the reference DES and encrypted by the table network'),
             Sub('many-blocks', pts_manyblocks, run_manyblocks, engine='H', exhaustive=False, chunk=1, bound='thorough only: 1040 distinct blocks through one WhiteDES object, then the first 8 again'),
+            Sub('same-state-at-several-rounds', pts_samestate, run_samestate, engine='H', chunk=1,
+                bound='2 keys x 4 internal (L,R) states: one WhiteDES object encrypts the 16 blocks that reach that state after round 1..16 (two orders), then three of them again'),
             Sub('round-order', pts_roundorder, run_roundorder, engine='H', chunk=1,
-                bound='1 key (thorough 2): every sequence of two round numbers and every sequence of three over {0,1,2,3,7,15} (thorough: all 4096), each on a freshly loaded module: the tables equal the ones generated in the order 0..15; 4 whole networks generated in reversed / even-odd / odd-even / strided order vs DES'),
+                bound='1 key (thorough 2): every sequence of two round numbers and every sequence of three over {0,1,2,3,7,15} (thorough: all 4096), with table_rKT and direct table_rKS calls mixed (4 patterns), each on a freshly loaded module: the tables equal the ones generated in the order 0..15; 4 whole networks generated in reversed / even-odd / odd-even / strided order vs DES'),
             Sub('key-object-reuse', pts_inplace, run_inplace, engine='H', chunk=1, bound='tables generated from one Bits key object that is overwritten in place with another key between two generations'),
             Sub('programs', pts, run, engine='P', exhaustive=False, chunk=1,
                 bound='one generated table network per key: 64 single-bit keys (incl. the 8 parity bits), zero, all-ones, 4 weak + 12 semi-weak keys, patterns, 8 parity-only variants (quick: 37 keys); each run on the 64 single-bit blocks, zero, all-ones and 4 patterns (quick: 22 blocks); structure of every table; M1/M2/M3 identical across keys and calls; each program is generated right after the programs of two neighbouring keys (one key bit / one parity bit away)')]
